@@ -11,7 +11,7 @@ func init() { core.Register("C22", "model_checking", run) }
 
 func run(c *core.C) {
 	n := core.Pick(c, 6, 8)
-	d := core.Pick(c, 0, 2)
+	d := core.Pick(c, 0, 1)
 	or := tmworld.Oracles{C22: true}
 	mk := func(p tmworld.Params, adv, rec int) *tmworld.Scenario {
 		return tmworld.New(tmworld.Config{P: p, MaxAdv: adv, MaxRec: rec, Mis: false}, or)
@@ -26,5 +26,13 @@ func run(c *core.C) {
 		{{K: "upd", A: []int{3, 0, 1}}, {K: "upd", A: []int{2, 0, 1}}, {K: "adv", A: []int{1}}, {K: "adv", A: []int{0}}, {K: "upd", A: []int{4, 0, 3}}},
 	})
 	tmworld.Describe(c)
+	if !c.Quick() && c.Replay == "" {
+		// one more exotic height: the iteration key's big-endian bytes spell "clientState"
+		obs, f := tmworld.ProbeSpellingHeight(c.T)
+		c.Set("probe_height_spelling_clientState", obs)
+		if f != nil {
+			c.Violation("spelling-height/"+f.Key, f.Text, map[string]any{"height": "6515817-7308895158390912101"})
+		}
+	}
 	c.Set("neighbour_probes", "GetNextConsensusState / GetPreviousConsensusState at every height from Base to Base+N+2 of the chain's revision, at heights 0, 1 and 2^64-1 of that revision, at (0,0), (rev-1, 2^64-1), (rev+1, 0) and (2^64-1, 2^64-1), in every state")
 }
